@@ -27,6 +27,10 @@ type ctxRes struct {
 	Accepted bool   `json:"accepted"`
 	Err      string `json:"err"`
 	Panicked bool   `json:"panicked"`
+	// Reused: the same transaction object was context-checked at PrevH first (pool admission,
+	// then re-validation / block check), parameters set again for H as the node does
+	Reused bool   `json:"reused_object"`
+	PrevH  uint32 `json:"previous_height"`
 }
 
 func runCtx(scr string) []ctxRes {
@@ -97,6 +101,18 @@ func runCtx(scr string) []ctxRes {
 			}
 		}
 	}
+	// object reuse: every ordered pair of heights on one transaction object
+	hs := []uint32{coordFreeze - 1, coordFreeze, coordRestriction - 1, coordRestriction, coordRestriction + 1}
+	for _, spend := range []string{"cross", "standard", "cross+standard"} {
+		for _, h1 := range hs {
+			for _, h2 := range hs {
+				tx := mk(spend)
+				n.ContextCheck(tx, h1, cfgs[0].c)
+				_, v := n.ContextCheck(tx, h2, cfgs[0].c)
+				out = append(out, ctxRes{Spend: spend, Cfg: cfgs[0].name, H: h2, Accepted: v.Accepted(), Err: v.String(), Panicked: v.Panicked, Reused: true, PrevH: h1})
+			}
+		}
+	}
 	return out
 }
 
@@ -111,6 +127,15 @@ func judgeCtx(r *evid.Run, xs []ctxRes, classes *evid.Distinct) (accepted int) {
 			b = "restricted"
 		} else if x.H >= coordFreeze {
 			b = "freeze-window"
+		}
+		if x.Reused {
+			pb := "prev-before-freeze"
+			if x.PrevH >= coordRestriction {
+				pb = "prev-restricted"
+			} else if x.PrevH >= coordFreeze {
+				pb = "prev-freeze-window"
+			}
+			b = "reused(" + pb + ")->" + b
 		}
 		classes.Add(fmt.Sprintf("ctx|%s|%s|%v", b, x.Spend, x.Accepted))
 		if x.Panicked {
